@@ -22,6 +22,7 @@
 //! flush `pending_count()` still accounts for the batch; at the end (after a final flush that
 //! succeeds) every accepted update that was not abandoned by a restart is recovered.
 
+mod big;
 mod fs;
 mod inter;
 mod model;
@@ -1270,6 +1271,11 @@ fn main() {
         },
     );
 
+    s.describe_check(
+        "large_values",
+        "enumerated size classes above every generated workload: one update of 64 KiB+1 / 1 MiB+1 / 4 MiB+1 / 16 MiB+1 (thorough: 64 MiB+1) payload bytes - a long string, or a hash of bytes/48 fields - at each of three positions between small updates, through StreamingPersistence (three confirmed flushes, recovery after each) and three Compactor passes (recovery after each): recovery succeeds and returns exactly the merge of the confirmed updates; a push/flush that refuses the update with an error is a clean rejection (counted)",
+    );
+    s.run_enumerated("large_values", big::cases(s.thorough()).into_iter(), big::check);
     s.describe_check(
         "workloads",
         "per workload: crash images of the fault-free run (boundaries + inside puts), then one run per (call, failure kind) with its crash images from the failing call on; thorough: pairs",
